@@ -349,6 +349,19 @@ Theorem C02_generated_decides_first_block_and_retry : forall (hash bev cev : Typ
   ((s_from sb - 1)%N, Z.of_N rc).
 Proof. exact GenAgreeFlowBase.built_start_and_retry_are_generated. Qed.
 
+(* ... and the rule that a replacement starts at the first block of the certificate in error it replaces (the model's test in
+   build_range): verifyRetryCertStartingBlock, GENERATED in Gen/GenLimitCert.v on top of the translated IsARetry. For EVERY value of the
+   panic parameter: LastSentCertificate is dereferenced only after IsARetry() has shown it to be non-nil. *)
+From Verif Require Gen.GenBuildParams Gen.GenLimitCert Proofs.GenAgreeBuildParams Proofs.GenAgreeLimitCert Model.CertCut.
+Theorem C02_generated_verifyRetryCertStartingBlock_rule : forall (panicv : GoNum.gerr) (c : GenBuildParams.CertificateBuildParams),
+  GenLimitCert.verifyRetryCertStartingBlock panicv (Some c) =
+  if CertCut.is_retry (GenAgreeBuildParams.abs c) &&
+     negb (GenBuildParams.CertificateBuildParams_FromBlock c =?
+             match GenBuildParams.CertificateBuildParams_LastSentCertificate c with
+             | Some h => GenBuildParams.CertificateHeader_FromBlock h | None => 0 end)%N
+  then GoNum.EFail else GoNum.EOK.
+Proof. exact GenAgreeLimitCert.verifyRetryCertStartingBlock_closed_form. Qed.
+
 Print Assumptions C02_Inv_init.
 Print Assumptions C02_step_preserves_Inv.
 Print Assumptions C02_reachable_Inv.
@@ -372,3 +385,4 @@ Print Assumptions C02_generated_getLastSentBlockAndRetryCount_is_model.
 Print Assumptions C02_generated_getNextHeightAndPreviousLER_is_model.
 Print Assumptions C02_generated_decides_height_and_previous_root.
 Print Assumptions C02_generated_decides_first_block_and_retry.
+Print Assumptions C02_generated_verifyRetryCertStartingBlock_rule.
